@@ -45,6 +45,10 @@ def match_name(pattern, name):
     return False
 
 
+class UnreachableCtx(Exception):
+    pass
+
+
 class SpecCtx:
     def __init__(self, eng, st, entry, names, fr_pkg=None, trace=None, extra=None):
         self.eng, self.st, self.entry, self.names, self.pkg = eng, st, entry, names, fr_pkg
@@ -330,6 +334,8 @@ class SpecCtx:
         self.st = s2
         try:
             return self.eval(a)
+        except UnreachableCtx:
+            return z3.BoolVal(True)     # the guard is unsatisfiable on this path: the guarded sub-formula is irrelevant
         finally:
             # facts learned while evaluating (ranges of UF values, lazily materialised cells, invariants) are unconditional
             pst.pc.extend(s2.pc[n0 + 1:])
@@ -741,6 +747,8 @@ class SpecCtx:
             idx = args[1][1]
             which = args[2][1] if len(args) > 2 else 0
             if len(evs) <= which:
+                if not self.st.feasible():
+                    raise UnreachableCtx()
                 raise SpecError("%s(%s): no such call on this path" % (n, self.flat(args[0])))
             e = evs[which]
             v = e.results[idx] if n == "ret" else e.args[idx]
